@@ -59,11 +59,39 @@ CHECKS.update({
   'note': 'Induction over operation histories is the usual meta-argument. Assumptions (call-site preconditions): bias <= size, size <= 2^31 for the int-returning bulk '
           'operations, near-range arguments for the fix-up loops. get_last / emplace / non-trivial element lifetimes of the typed ring are not under contract (PROPERTY.json).'},
 })
+CHECKS.update({
+ 'C01': {
+  'text': 'Every list operation (C dlist/slist/hlist, C++ dlist_node/dlist_base extracted to C) is proved as a LOCAL contract that holds inside rings of any length: a pool of '
+          'exact-size node objects whose link fields are chosen by symbolic indices (any pool node or a pointer that must not be followed) stands for the neighbourhood; LINKED is '
+          'assumed only at the argument nodes, every aliasing pattern (single-element ring, node next to its target, node moved next to itself, self-linked source) is admitted; '
+          'ensures = the local shape of the reference (std::list-like) result, an exact frame over all link fields, LINKED at every touched node and at an arbitrary third-party '
+          'node, self-link / poison of removed nodes and "removing it again is harmless". Additional function contracts are enforced with --dfcc (cbmc-checked assigns clauses).',
+  'ref': 'C01', 'technique': 'CBMC local contracts over a symbolic node pool (frame + third-party preservation), dfcc-enforced function contracts; cxx2c-extracted C++ nodes',
+  'note': 'Sequence-level clauses (traversal yields the reference sequence, size/membership agree) are bounded stand-ins on rings of <= 5 nodes (6 thorough), labelled bounded: the '
+          'traversal functions walk an unbounded inductive structure that CBMC contracts cannot describe. The lifting from local splice + frame to the sequence and the induction over '
+          'histories are meta-arguments. The dlist<T,member> template wrappers and iterators are thin forwards and not extracted.'},
+ 'C14': {
+  'text': 'Every member of static_vector<T,N>, static_string<N> and their std_portable twins (extracted mechanically to C, T = the abstract element ELEM with an in-object ghost '
+          'lifetime state) is proved for an ARBITRARY capacity N in [1, 2^36]: the inline storage is an exact-size object, so a write outside it fails a pointer obligation; '
+          'size <= N, contents == reference sequence truncated to N keeping the prefix (ghost index), and the ELEM protocol (construct only raw slots, assign/read only live ones, '
+          'destroy exactly once, every slot raw at destruction). Loops are closed by injected invariants.',
+  'ref': 'C14', 'technique': 'cxx2c extraction + CBMC loop contracts; ghost element-lifetime protocol; symbolic capacity',
+  'note': 'Trusted: the cxx2c rewrite rules (placement new / destructor calls / std::move onto the ELEM_* functions), the std::move algorithm stub. Induction over operation histories '
+          'is a meta-argument. emplace_back with other than one argument and iterator types other than const T* are not covered.'},
+ 'C18': {
+  'text': 'hex helpers are proved loop-free over their full domains (alphabet 0-9A-F, both directions of every uintN pair); hexascii_encode/decode and the std::string overload by loop '
+          'contracts (length, alphabet, exact-size objects) with the round trip as a lemma over the two contracts; base64_encode / base64url_encode are co-simulated with an RFC 4648 '
+          'reference (every 6-bit group via a ghost index, padding, length 4*ceil(n/3), no read outside the input); base64_decode equals the reference decoder on the longest alphabet '
+          'prefix; the reference pair is proved inverse for every length.',
+  'ref': 'C18', 'technique': 'CBMC full-domain assertions and loop contracts; cxx2c extraction with a std::string stub; RFC 4648 reference co-simulation',
+  'note': 'The base64 round trip for every length rests on four proved pieces plus a first-order composition step; the real encoder∘decoder composition and the url-safe decoder are '
+          'bounded stand-ins (<= 7 bytes / <= 8 characters), labelled bounded. Trusted: std::string stub (libstdc++), cxx2c rules.'},
+})
 WIP = 'no proof unit built yet in this session (work in progress; see DESIGN.md for the planned contracts)'
 NOT_APPLICABLE = {
  'C08': WIP,
- 'C01': WIP, 'C02': WIP, 'C06': WIP, 'C07': WIP, 'C10': WIP, 'C11': WIP,
- 'C12': WIP, 'C14': WIP, 'C15': WIP, 'C18': WIP, 'C19': WIP,
+ 'C02': WIP, 'C06': WIP, 'C07': WIP, 'C10': WIP, 'C11': WIP,
+ 'C12': WIP, 'C15': WIP, 'C19': WIP,
  'C09': 'quantifies over a family of C++ types assembled by template metaprogramming (partial specialisations, SFINAE, '
         'concepts, std::tuple/map/string, virtual archives); CBMC has no usable C++ front end and the mechanical C '
         'extraction deliberately excludes templates-over-types, so no contract on the real code can state it',
